@@ -172,7 +172,7 @@ def stepLine (d : DSt) (line : String) : DSt × String :=
       let dur := effDurNs d.gw ttl
       -- a timer armed with a duration ≤ 0 fires at once
       let shown := if dur ≤ 0 then "0" else if dur ≥ 3000000000 then "gt3000" else toString (roundEff (dur / 1000000))
-      (s!"{t}:eff={shown}", if dur ≤ 0 then (if eff ≤ 0 then "C14-ttl-floor" else "C14-ttl-overflow") else ""))
+      (s!"{t}:timeout={shown}", if dur ≤ 0 then (if eff ≤ 0 then "C14-ttl-floor" else "C14-ttl-overflow") else ""))
     let flags := (rs.map (·.2)).filter (· != "") |>.eraseDups
     (d, "gwttl " ++ " ".intercalate (rs.map (·.1)) ++ (if flags.isEmpty then "" else "\t#F:" ++ ",".intercalate flags))
   | ["gwcancel"] => (d, if d.withoutCancel then "gwcancel kept acq" else "gwcancel removed err")
